@@ -9,7 +9,7 @@
    Proofs/WritersDict.v: wf_db (keys, field names, roles unique up to case; every role has a person -- what the API
    builds), map_ids.  Proofs/WritersTree.v: parts_ok p := reparse_person p = Ok p, yaml_ok, xml_ok. *)
 From Pybtex Require Import Base.Prelude Base.PyChar Base.PyStr Model.BibtexStr Model.Names Model.Scanner Model.BibParser Model.Writers
-  Proofs.Writers Proofs.WritersDict Proofs.WritersTree Proofs.WritersQuote Proofs.WritersPerson Proofs.WritersChain.
+  Proofs.Writers Proofs.WritersDict Proofs.WritersTree Proofs.WritersQuote Proofs.WritersPerson Proofs.WritersChain Proofs.WritersField Proofs.WritersName.
 
 (* ---- identifier lower-casing changes nothing but the letter case of keys, entry types, field names, roles *)
 Theorem lower_only_case : forall d, wf_db d -> lower_db d = Ok (map_ids lower d).
@@ -34,19 +34,18 @@ Theorem yaml_type_field_refuted :
 Proof. exact yaml_type_field_refuted_pf. Qed.
 Print Assumptions yaml_type_field_refuted.
 
-(* ---- BibTeXML glue: same, the preamble is not carried.  xml_ok: roles are exactly "author" / "editor",
-   no field has one of these two names, persons are parts_ok *)
+(* ---- BibTeXML glue: same, the preamble is not carried.  xml_ok: roles are author / editor UP TO CASE (as for YAML,
+   as the .bib reader keeps them), no field has one of these two names (up to case), persons are parts_ok.
+   This is the full statement: before the repair afc7628 (finding FC02a, now fixed) the reader tested the role
+   case-sensitively and the theorem held for the exact spellings only, with a refutation witness for "Author". *)
 Theorem xml_glue_roundtrip : forall d, wf_db d -> xml_ok d -> from_tree_xml (to_tree_xml d) = Ok (drop_preamble d).
 Proof. exact xml_glue_roundtrip_pf. Qed.
 Print Assumptions xml_glue_roundtrip.
 
-(* FC02a (finding): with the role spelled Author (as the .bib reader keeps it) the persons are lost.
-   Full statement (false): xml_glue_roundtrip with roles author / editor up to case, as for YAML *)
-Theorem xml_role_case_refuted :
-  exists rd, write_read latex_enc FXml (role_db [65; 117; 116; 104; 111; 114]%N) = Ok rd /\
-             we_persons (hd (mkWE [] [] [] []) (wd_entries rd)) = [] /\ rd <> role_db [65; 117; 116; 104; 111; 114]%N.
-Proof. exact xml_role_case_refuted_pf. Qed.
-Print Assumptions xml_role_case_refuted.
+(* the former witness of FC02a now round-trips (regression) *)
+Theorem xml_role_case : write_read latex_enc FXml (role_db [65; 117; 116; 104; 111; 114]%N) = Ok (role_db [65; 117; 116; 104; 111; 114]%N).
+Proof. exact xml_role_case_fixed_pf. Qed.
+Print Assumptions xml_role_case.
 
 (* F18 (set aside by the property text): each of # % & _ ~ in a field value is re-escaped by the BibTeX
    writer (latexcodec), so the value read back differs *)
@@ -71,8 +70,10 @@ Example ex_lower : lower_db ex_db = Ok (map_ids lower ex_db) /\ map_ids lower ex
 Proof. split; [vm_compute; reflexivity|intro H; discriminate H]. Qed.
 Example ex_yaml : from_tree_yaml (to_tree_yaml ex_db) = Ok (norm_preamble ex_db) /\ wd_preamble (norm_preamble ex_db) = [s2l "preamble"].
 Proof. vm_compute. auto. Qed.
-Example ex_xml : from_tree_xml (to_tree_xml ex_db_lc) = Ok (drop_preamble ex_db_lc).
+Example ex_xml : from_tree_xml (to_tree_xml ex_db_lc) = Ok (drop_preamble ex_db_lc) /\ from_tree_xml (to_tree_xml ex_db) = Ok (drop_preamble ex_db).
 Proof. vm_compute. auto. Qed.
+Example ex_xml_ok_mixed_case : xml_ok ex_db.
+Proof. repeat constructor; cbn; try (intros [H|H]; try discriminate H; try contradiction); try tauto; try discriminate. Qed.
 
 (* ---- Writer.quote against the .bib reader: for a brace-balanced value (nesting <= 100; Proofs/WritersQuote.v
    [balanced]) whatever quote returns -- "v" or {v} -- is read back by parse_value_part as exactly v, consuming
@@ -146,3 +147,69 @@ Theorem quote_read_roundtrip : forall v, balanced v ->
       exists s', parse_value_part m s = Ret v s' /\ sc_rest (p_sc s') = tail /\ frame s' = frame s.
 Proof. exact quote_read_pf. Qed.
 Print Assumptions quote_read_roundtrip.
+
+(* ---- the tree round trips with the serialisation library in between.  [ydump]/[yload] stand for PyYAML's dump
+   (with the writer's options) and load (with the reader's loader), [xdump]/[xload] for XMLGenerator and ElementTree;
+   nothing is assumed of them except, as an explicit hypothesis, that the one tree the writer builds for this database
+   comes back unchanged.  That hypothesis is what the correspondence run samples on every case (function 6 / 8 compare
+   the tree loaded from the real to_string output with to_tree_yaml / to_tree_xml), including scalar shapes a library
+   may re-type ('007', 'true', '1e3', '~', ...). *)
+Theorem yaml_roundtrip : forall (text : Type) (ydump : tree -> text) (yload : text -> res tree) d,
+  wf_db d -> yaml_ok d -> yload (ydump (to_tree_yaml d)) = Ok (to_tree_yaml d) ->
+  read_yaml text yload (write_yaml text ydump d) = Ok (norm_preamble d).
+Proof. exact yaml_roundtrip_pf. Qed.
+Print Assumptions yaml_roundtrip.
+
+Theorem xml_roundtrip : forall (text : Type) (xdump : xml -> text) (xload : text -> res xml) d,
+  wf_db d -> xml_ok d -> xload (xdump (to_tree_xml d)) = Ok (to_tree_xml d) ->
+  read_xml text xload (write_xml text xdump d) = Ok (drop_preamble d).
+Proof. exact xml_roundtrip_pf. Qed.
+Print Assumptions xml_roundtrip.
+
+(* the hypothesis is not decoration: a library that re-types a scalar -- the tree of the database with value v' comes
+   back for the database with value v -- makes the reader return that other database; the glue cannot repair it *)
+Theorem yaml_scalar_retyped : forall (text : Type) (ydump : tree -> text) (yload : text -> res tree) name v v',
+  yaml_ok (field_db name v') ->
+  yload (ydump (to_tree_yaml (field_db name v))) = Ok (to_tree_yaml (field_db name v')) -> v <> v' ->
+  read_yaml text yload (write_yaml text ydump (field_db name v)) = Ok (field_db name v') /\ field_db name v' <> field_db name v.
+Proof. exact yaml_scalar_retyped_pf. Qed.
+Print Assumptions yaml_scalar_retyped.
+
+(* ---- a field as the BibTeX writer writes it is read back by the reader's parse_field: for an identifier the NAME
+   pattern matches, a brace-balanced value left alone by the LaTeX encoder (enc v = v: no # % & _ ~ with latexcodec),
+   the text  newline, 4 spaces, name, " = ", quoted value  (what follows the separating comma), followed by any
+   whitespace and anything that is neither whitespace nor '#', sets current_field_name = name and
+   current_value = [v], leaves the scanner at that following character and touches nothing else; no error in any mode *)
+Theorem field_roundtrip : forall enc m name v txt ws c t s,
+  is_ident name -> balanced v -> enc v = v -> write_field enc name v = Ok txt ->
+  forallb is_space ws = true -> is_space c = false -> c <> c_hash ->
+  sc_rest (p_sc s) = tl txt ++ ws ++ c :: t ->
+  exists s', parse_field m s = Ret tt s' /\ sc_rest (p_sc s') = c :: t /\
+             p_fname s' = Some name /\ p_value s' = [v] /\
+             p_fields s' = p_fields s /\ p_errs s' = p_errs s /\ p_macros s' = p_macros s /\ p_key s' = p_key s /\ p_cstart s' = p_cstart s.
+Proof. exact field_roundtrip_pf. Qed.
+Print Assumptions field_roundtrip.
+
+Example ex_field : is_ident (s2l "Title") /\ balanced (s2l "A {B} ""c""") /\ latex_enc (s2l "A {B} ""c""") = s2l "A {B} ""c""" /\
+  exists txt, write_field latex_enc (s2l "Title") (s2l "A {B} ""c""") = Ok txt /\ hd 0%N txt = c_comma.
+Proof. repeat split; try (vm_compute; reflexivity). eexists; split; vm_compute; reflexivity. Qed.
+
+(* ---- names through the BibTeX writer and the name parser: for every person that is [expressible]
+   (Proofs/WritersName.v: tokens of plain characters without commas, exactly one first-name token -- BibTeX files
+   every further given name under middle --, a last name, the von part empty or ending with a von token, no
+   last-name token but the final one a von token; is_von_name is the parser's own test) the text
+   Writer._format_name produces ("von Last, First Middle" / "von Last, Jr, First Middle") is parsed by Person(text)
+   into exactly the same five parts, and nothing is reported.
+   Partial: persons without a first name (written "von Last", the First-von-Last form) and braced tokens / special
+   characters are not covered by the theorem (correspondence + oracle). *)
+Theorem bibtex_name_roundtrip_partial : forall p, expressible p -> person_of_string (format_name p) = Ok (p, false).
+Proof. exact bibtex_name_roundtrip_pf. Qed.
+Print Assumptions bibtex_name_roundtrip_partial.
+
+Example ex_expressible : expressible ex_person /\ expressible knuth /\
+  format_name ex_person = s2l "de la Fontaine, Jr., Jean" /\ format_name knuth = s2l "Knuth, Donald E.".
+Proof.
+  unfold expressible. repeat match goal with |- _ /\ _ => split end;
+    first [ reflexivity | discriminate | solve [eexists; reflexivity] | solve [right; reflexivity] | solve [left; reflexivity]
+          | solve [repeat constructor; discriminate] | solve [repeat constructor] ].
+Qed.
